@@ -261,6 +261,20 @@ fn gen_c18(out: &mut Out, rng: &mut Rng, thorough: bool) {
             }
         }
     }
+    // ... stored at every 4-byte-aligned offset around the 8 KiB and 16 KiB marks of the summary
+    // stream (buffer sizes of the container's stream writer): a subject text of every length in a
+    // window, after a one-character author
+    for (lo, hi) in [(7950usize, 8250usize), (16150, 16440)] {
+        let step = if thorough { 1 } else { 2 };
+        for len in (lo..hi).step_by(step) {
+            let tick = rng.next() as i128;
+            let ns = (tick - EPOCH_TICKS) * 100 + rng.below(100) as i128;
+            let secs = ns.div_euclid(1_000_000_000);
+            let nanos = ns.rem_euclid(1_000_000_000);
+            let subject = "s".repeat(len + (len % 4 == 3) as usize * 0);
+            out.req("save_reopen_offset", format!("ts_save {secs} {nanos} Utf8 {} {}", hex_of_str("a"), hex_of_str(&subject)));
+        }
+    }
 }
 
 // ------------------------------------------------------------------------------------
@@ -325,6 +339,30 @@ fn gen_c13(out: &mut Out, rng: &mut Rng, thorough: bool) {
             let d = 1 + rng.below(3) as usize;
             let e = random_expr(rng, d, &leaves);
             out.req("two_rows", format!("eval2 {rt} {} {}", others[i % 3], e.to_line()));
+        }
+    }
+    // column references are resolved by the exact, whole name: rows (of joins, of anonymous tables)
+    // whose column names are qualified, unqualified, differ only in case, or are suffixes of others
+    {
+        let qrow: Vec<(String, V)> = ["T.a", "a", "U.a", "A", "T.b", "b.c", "c", "T.A", "a.T", "T.b.c"]
+            .iter().enumerate().map(|(i, n)| (n.to_string(), V::Int(i as i32 + 1))).collect();
+        let qt = row_toks(&qrow);
+        let mut rev = qrow.clone();
+        rev.reverse();
+        let qr = row_toks(&rev);
+        let qleaves: Vec<E> = qrow.iter().map(|(n, _)| E::Col(n.clone())).chain([E::Lit(V::Int(100)), E::Lit(V::Null)]).collect();
+        for a in &qleaves {
+            out.req("names", format!("eval {qt} {}", a.to_line()));
+            out.req("names", format!("eval {qr} {}", a.to_line()));
+            for b in &qleaves {
+                let e = E::Bin("sub", Box::new(a.clone()), Box::new(b.clone()));
+                out.req("names", format!("eval {qt} {}", e.to_line()));
+                out.req("names", format!("eval2 {qt} {qr} {}", e.to_line()));
+            }
+        }
+        for _ in 0..(if thorough { 3000 } else { 300 }) {
+            let e = random_expr(rng, 2, &qleaves);
+            out.req("names", format!("eval {} {}", if rng.chance(1, 2) { &qt } else { &qr }, e.to_line()));
         }
     }
     // depth 1, exhaustive: every operator on every (pair of) leaf
@@ -1815,8 +1853,7 @@ fn gen_gate_sessions(out: &mut Out, rng: &mut Rng, thorough: bool) {
         let toks: Vec<String> = cols.iter().map(|c| c.tok()).collect();
         out.req("create_table", format!("create_table {} {}", hex_of_str("G"), toks.join(" ")));
         let mut key = 0;
-        for _ in 0..(4 + rng.below(10)) {
-            key += 1;
+        let mkrow = |rng: &mut Rng, key: i32| -> Vec<V> {
             let mut row = vec![V::Int(key)];
             for c in &cols[1..] {
                 let v = match rng.below(6) {
@@ -1832,12 +1869,28 @@ fn gen_gate_sessions(out: &mut Out, rng: &mut Rng, thorough: bool) {
             if rng.chance(1, 20) {
                 row.pop();
             }
+            row
+        };
+        for _ in 0..(4 + rng.below(10)) {
+            key += 1;
+            let row = mkrow(rng, key);
             if rng.chance(1, 2) {
-                let mut parts = vec!["1".to_string(), row.len().to_string()];
-                for v in &row {
-                    parts.push(v.tok());
+                // one row, or a batch: every row of a batch is checked, whichever comes first
+                let mut rows = vec![row.clone()];
+                if rng.chance(1, 3) {
+                    for _ in 0..(1 + rng.below(3)) {
+                        key += 1;
+                        rows.push(mkrow(rng, key));
+                    }
                 }
-                out.req("gate_insert", format!("insert {} {}", hex_of_str("G"), parts.join(" ")));
+                let mut parts = vec![rows.len().to_string()];
+                for r in &rows {
+                    parts.push(r.len().to_string());
+                    for v in r {
+                        parts.push(v.tok());
+                    }
+                }
+                out.req(if rows.len() > 1 { "gate_insert_batch" } else { "gate_insert" }, format!("insert {} {}", hex_of_str("G"), parts.join(" ")));
             } else if row.len() > 1 {
                 let j = 1 + rng.below(row.len() as u64 - 1) as usize;
                 out.req("gate_update", format!("update {} 1 {} {} -", hex_of_str("G"), hex_of_str(&cols[j.min(cols.len() - 1)].name), row[j].tok()));
@@ -1878,6 +1931,46 @@ fn gen_stream_sessions(out: &mut Out, rng: &mut Rng, thorough: bool) {
         }
     }
     out.req("streams", "streams".into());
+    // signed packages: removing the signature removes only the signature (one or both of the two
+    // signature streams present; before and after other calls; across reopen)
+    {
+        let base = c09_bases()[0].clone();
+        for case in 0..(if thorough { 120 } else { 12 }) {
+            let mut e = base.clone();
+            if case % 3 != 1 {
+                e.push(("\u{5}DigitalSignature".to_string(), (0..(40 + case * 37 % 5000)).map(|i| (i * 7) as u8).collect()));
+            }
+            if case % 3 != 0 {
+                e.push(("\u{5}MsiDigitalSignatureEx".to_string(), vec![1, 2, 3, 4]));
+            }
+            e.push((crate::decode::pack_name("logo", false), vec![9u8; 70]));
+            out.req("load_signed", format!("load {} {}", case % 3, entries_tok(&e)));
+            out.req("has_sig", "has_sig".into());
+            out.req("streams", "streams".into());
+            if case % 4 == 1 {
+                out.req("stream_write", format!("stream_write {} 0a0b", hex_of_str("extra")));
+            }
+            if case % 4 == 2 {
+                out.req("table_op", format!("insert {} 1 3 I77 S{} I5", hex_of_str("Items"), hex_of_str("seventy-seven")));
+            }
+            // the signature streams are not reachable through the stream interface
+            out.req("special_read", format!("stream_read {}", hex_of_str("\u{5}DigitalSignature")));
+            out.req("special_remove", format!("stream_remove {}", hex_of_str("\u{5}DigitalSignature")));
+            out.req("snapshot", "snapshot".into());
+            out.req("remove_sig", "remove_sig".into());
+            out.req("snapshot", "snapshot".into());
+            out.req("has_sig", "has_sig".into());
+            out.req("streams", "streams".into());
+            if case % 2 == 0 {
+                out.req("remove_sig", "remove_sig".into());
+                out.req("snapshot", "snapshot".into());
+            }
+            out.req("reopen", format!("reopen {}", crate::hist::CLOSE_MODES[case % 3]));
+            out.req("snapshot", "snapshot".into());
+            out.req("has_sig", "has_sig".into());
+            out.req("raw", "raw".into());
+        }
+    }
     for _ in 0..n {
         out.req("new", format!("new {}", rng.below(3)));
         if rng.chance(1, 3) {
@@ -1902,7 +1995,13 @@ fn gen_stream_sessions(out: &mut Out, rng: &mut Rng, thorough: bool) {
                 }
                 5 => out.req("stream_remove", format!("stream_remove {h}")),
                 6 => out.req("stream_read", format!("stream_read {h}")),
-                7 => out.req("has_stream", format!("has_stream {h}")),
+                7 => {
+                    if rng.chance(1, 3) {
+                        out.req("remove_sig", "remove_sig".into());
+                    } else {
+                        out.req("has_stream", format!("has_stream {h}"));
+                    }
+                }
                 8 => out.req("streams", "streams".into()),
                 9 => {
                     out.req("table_op", format!("insert {} 1 2 I{} S{}", hex_of_str("T"), rng.below(50), hex_of_str("v")));
@@ -2081,6 +2180,7 @@ fn corrupt(rng: &mut Rng, base: &[(String, Vec<u8>)]) -> (Vec<(String, Vec<u8>)>
 fn gen_c09(out: &mut Out, rng: &mut Rng, thorough: bool) {
     let bases = c09_bases();
     let battery = |out: &mut Out, tables: &[&str]| {
+        out.req("ffi", "@ffi_check".into());
         out.req("battery", "snapshot".into());
         out.req("battery", "streams".into());
         for t in tables {
@@ -2134,7 +2234,21 @@ fn gen_c09(out: &mut Out, rng: &mut Rng, thorough: bool) {
                     None => e.push(("\u{5}SummaryInformation".to_string(), data)),
                 }
                 out.req("summary_offsets", format!("load 0 {}", entries_tok(&e)));
+                out.req("ffi", "@ffi_check".into());
                 out.req("battery", "snapshot".into());
+            }
+        }
+    }
+    // a user table whose stream holds more rows than the reader admits: the package opens, the
+    // table is listed, reading its rows is an error (for the API and for the C interface alike)
+    for (bi, b) in bases.iter().enumerate() {
+        for tname in ["Items", "T"] {
+            let packed = crate::decode::pack_name(tname, true);
+            let mut e = b.clone();
+            if let Some(x) = e.iter_mut().find(|x| x.0 == packed) {
+                x.1 = vec![0u8; 1 << 20];
+                out.req("too_many_rows", format!("load {} {}", bi % 3, entries_tok(&e)));
+                battery(out, &["Items", "T", "_Validation"]);
             }
         }
     }
@@ -2171,6 +2285,9 @@ fn gen_c09(out: &mut Out, rng: &mut Rng, thorough: bool) {
             }
         }
         out.req("raw_bytes", format!("@open_bytes {}", hex_of_bytes(&f)));
+        if i % 3 == 0 {
+            out.req("ffi", "@ffi_check".into());
+        }
     }
 }
 
@@ -2244,8 +2361,9 @@ fn gen_c02(out: &mut Out, rng: &mut Rng, thorough: bool) {
                                     V::Str(format!("{base}{}\u{e9}{}\u{65e5}\u{672c}tail", "p".repeat(pad), "q".repeat(1021 + rng.below(4) as usize)))
                                 } else if unicode_ok && rng.chance(1, 6) {
                                     V::Str(format!("{base}\u{e9}\u{65e5}"))
-                                } else if rng.chance(1, 25) {
+                                } else if rng.chance(1, if case < 350 { 25 } else { 700 }) {
                                     // beyond 64 KiB: any length, and lengths whose low 16 bits are zero or all ones
+                                    // (rarer in the long runs: each one is megabytes of protocol text)
                                     let target = *rng.pick(&[66000usize + base.len(), 65536, 131072, 65535, 65537, 196608]);
                                     V::Str(format!("{base}{}", "L".repeat(target - base.len())))
                                 } else {
@@ -2319,6 +2437,9 @@ fn gen_c02(out: &mut Out, rng: &mut Rng, thorough: bool) {
         let pt = rng.below(3);
         out.req("load", format!("load {pt} {}", entries_tok(&entries)));
         out.req("snapshot", "snapshot".into());
+        if case % 2 == 0 {
+            out.req("ffi", "@ffi_check".into());
+        }
         // read-only close must not disturb anything; then edits through the API
         if case % 3 == 0 {
             out.req("reopen", format!("reopen {}", rng.pick(&crate::hist::CLOSE_MODES)));
